@@ -6,7 +6,7 @@ import gen
 import modelspec as M
 from props import util
 
-THEOREMS = ['C05_storage_physics', 'C05_level_within_size_at_every_step', 'C05_builder_refuses_end_level_outside_size', 'C05_level_rows', 'C05_time_blocks', 'C05_time_blocks_start_differs_from_end_refuted', 'C05_holding_duration', 'C05_holding_duration_with_start_level_refuted', 'C05_no_simultaneous']
+THEOREMS = ['C05_storage_physics', 'C05_level_within_size_at_every_step', 'C05_builder_refuses_end_level_outside_size', 'C05_level_rows', 'C05_time_blocks', 'C05_time_blocks_start_differs_from_end_refuted', 'C05_holding_duration', 'C05_holding_duration_level_zero', 'C05_holding_duration_with_start_level_refuted', 'C05_no_simultaneous']
 CFG = {'p_coarse': 0.2, 'p_periodic': 0.0, 'T': (3, 9), 'n_assets': (1, 3), 'nodes': (1, 3), 'p_window': 0.4, 'p_market': 1.0,
        'p_inflow': 0.5, 'p_no_simult': 0.25, 'p_max_store': 0.2, 'p_storage_price': 0.15, 'p_blocks': 0.15,
        'kinds': {'Storage': 6, 'Transport': 1, 'SimpleContract': 1}}
